@@ -170,7 +170,13 @@ def explore(name, params, result, max_depth, workers=None, max_states=None,
     closure = False
     obs_keys = set()
     serial = (workers == 1)
+    nviol = 0
     while frontier and depth < max_depth:
+        if nviol > 2000:
+            # the tree under test is broken in so many places that going on
+            # only burns time (a broken tree can also blow the state space
+            # up); the verdict is settled
+            break
         depth += 1
         nxt = []
         jobs = [(name, params, c, use_future) for c in
@@ -190,8 +196,10 @@ def explore(name, params, result, max_depth, workers=None, max_states=None,
             if obs is not None:
                 obs_keys.add(obs)
             for vkey, msg in viols:
-                result.violation(vkey, msg, {'model': name, 'params': params,
-                                             'history': list(hist)})
+                if result.violation(vkey, msg, {'model': name,
+                                                'params': params,
+                                                'history': list(hist)}):
+                    nviol += 1       # known findings do not count
             if key not in seen:
                 seen.add(key)
                 nxt.append(hist)
